@@ -267,7 +267,11 @@ fn run_case(r: &mut Rng, c: &Case, out: &mut Sink) {
                 buckets.insert(b, (id.clone(), tree.stored[id].bytes()));
             }
             None => {
-                out.fail(format!("harness: allocate_bucket gave up on a table of {nbuckets} buckets"));
+                // the harness could not place its own decoys on this small table (the real `allocate_bucket` legitimately gives up when
+                // its probe orbit holds no free bucket): not a verdict about the code — the case is skipped and counted
+                // (false alarm of C13's thorough tier, session 4)
+                out.count("setup_table_full_case_skipped");
+                let _ = nbuckets;
                 return;
             }
         }
